@@ -125,6 +125,21 @@ type c14case struct {
 	transfer                   bool
 	cfg                        []srv
 	term, vterm, vcand, li, lt uint64
+	// component 1401: the stable store fails on chosen writes of persistVote; every stage (entering, each event) carries
+	// its failure bits, consumed by the stage's durable operations in order (never the first one: a failing
+	// setCurrentTerm panics the process)
+	failMode bool
+}
+
+// failure bits of one stage in fail mode: none, LastVoteCand fails, or LastVoteTerm fails (the term write before them succeeds)
+func c14pickBits(r *rng) []uint64 {
+	switch x := r.intn(6); {
+	case x < 3:
+		return []uint64{0, 1}
+	case x < 4:
+		return []uint64{0, 0, 1}
+	}
+	return nil
 }
 
 func (cs *c14case) header() []uint64 {
@@ -146,6 +161,40 @@ func c14run(cs *c14case, r *rng, steps int, scripted []uint64) (events []uint64,
 	}
 	if cs.vcand != 0 {
 		stable.kv["LastVoteCand"] = []byte(addrStr(cs.vcand - 1))
+	}
+	orc := &oracle{}
+	if cs.failMode {
+		stable.orc = orc
+	}
+	setBits := func(bits []uint64) {
+		orc.mu.Lock()
+		orc.bits = nil
+		for _, b := range bits {
+			orc.bits = append(orc.bits, b != 0)
+		}
+		orc.mu.Unlock()
+	}
+	// fail mode: take the bits of the next stage from the script, or choose them; they are appended to the events
+	stageBits := func() []uint64 {
+		if !cs.failMode {
+			return nil
+		}
+		var bits []uint64
+		if scripted != nil {
+			if len(scripted) > 0 {
+				n := int(scripted[0])
+				if n > len(scripted)-1 {
+					n = len(scripted) - 1
+				}
+				bits, scripted = scripted[1:1+n], scripted[1+n:]
+			}
+		} else {
+			bits = c14pickBits(r)
+		}
+		setBits(bits)
+		events = append(events, uint64(len(bits)))
+		events = append(events, bits...)
+		return bits
 	}
 	tr := &scriptTrans{id: cs.self, consumer: make(chan raft.RPC, 16)}
 	cf := baseConfig(nodeOpts{id: cs.self, trailing: 100, maxAppend: 4, prevoteOff: !cs.prevote})
@@ -255,6 +304,7 @@ func c14run(cs *c14case, r *rng, steps int, scripted []uint64) (events []uint64,
 		}
 	}
 	// enter
+	bits0 := stageBits()
 	if cs.transfer {
 		ch := make(chan raft.RPCResponse, 1)
 		tr.consumer <- raft.RPC{Command: &raft.TimeoutNowRequest{RPCHeader: header(0, 0)}, RespChan: ch}
@@ -263,7 +313,8 @@ func c14run(cs *c14case, r *rng, steps int, scripted []uint64) (events []uint64,
 		rr.VerifFireHeartbeatTimeout()
 	}
 	waitFor(5*time.Second, func() bool {
-		return rr.State() != raft.Follower && (tr.count(1)+tr.count(2) >= peers || rr.State() == raft.Leader)
+		// (when persistVote is made to fail, electSelf returns before it has asked the peers listed after the server itself)
+		return rr.State() != raft.Follower && (tr.count(1)+tr.count(2) >= peers || rr.State() == raft.Leader || (len(bits0) > 0 && rr.CurrentTerm() > cs.term))
 	})
 	settle()
 	observe()
@@ -306,7 +357,7 @@ func c14run(cs *c14case, r *rng, steps int, scripted []uint64) (events []uint64,
 		if tr.count(1) > 0 {
 			choices = append(choices, mkAns(2), mkAns(2))
 		}
-		if r.chance(1, 5) || len(choices) == 0 {
+		if r.chance(1, 5) || len(choices) == 0 || (!isVoter[cs.self] && r.chance(1, 3)) {
 			choices = append(choices, []uint64{3})
 		}
 		return choices[r.intn(len(choices))]
@@ -317,6 +368,7 @@ func c14run(cs *c14case, r *rng, steps int, scripted []uint64) (events []uint64,
 			break
 		}
 		events = append(events, ev...)
+		bits := stageBits()
 		switch ev[0] {
 		case 1, 2:
 			kind := 2
@@ -379,6 +431,9 @@ func c14run(cs *c14case, r *rng, steps int, scripted []uint64) (events []uint64,
 			t0 := rr.CurrentTerm()
 			rr.VerifSetElectionTimeout(15 * time.Millisecond)
 			waitFor(5*time.Second, func() bool {
+				if len(bits) > 0 && (rr.CurrentTerm() > t0 || rr.State() != raft.Candidate) {
+					return true // a failing persistVote: fewer peers are asked
+				}
 				return tr.count(1)+tr.count(2) >= peers && (peers > 0 || rr.CurrentTerm() > t0 || rr.State() != raft.Candidate)
 			})
 			rr.VerifSetElectionTimeout(time.Hour)
@@ -390,6 +445,9 @@ func c14run(cs *c14case, r *rng, steps int, scripted []uint64) (events []uint64,
 				// was descheduled for longer than the timeout): the run has lost control of the server's timing
 				// and ends before this event - it reports nothing about steps it did not control
 				events = events[:len(events)-len(ev)]
+				if cs.failMode {
+					events = events[:len(events)-1-len(bits)]
+				}
 				settle()
 				return
 			}
@@ -422,26 +480,39 @@ func runC14cand(cw *caseWriter, tier string, r *rng) {
 	for c := 0; c < cnt; c++ {
 		cs := &c14case{self: 1, prevote: r.chance(2, 3), term: 3, li: uint64(1 + r.intn(3)), lt: 2}
 		ci := 0
-		switch x := r.intn(10); {
-		case x < 5:
-			ci = 0
-		case x < 7:
-			ci = 1
-		case x < 8:
-			ci = 2
+		switch x := r.intn(20); {
 		case x < 9:
+			ci = 0
+		case x < 12:
+			ci = 1
+		case x < 14:
+			ci = 2
+		case x < 16:
 			ci = 3
 		default:
-			ci = 4
+			ci = 4 // the server is a non-voter: it campaigns only on TimeoutNow; after an election timeout its pre-vote round has no own vote
 			cs.transfer = true
 		}
-		if r.chance(1, 6) {
-			cs.transfer = true
+		if r.chance(1, 4) {
+			cs.transfer = true // leadership transfer: no pre-vote round; the flag is reset when the loop is left (also as leader)
 		}
 		if r.chance(1, 3) {
 			cs.vterm, cs.vcand = 3, 3
 		}
-		fmt.Fprintf(&jobs[c%workers], "%s %d %d %d %d %d %d\n", cw.tag("k"), r.next(), ci, b2u(cs.prevote), cs.li, b2u(cs.transfer), cs.vterm)
+		fmt.Fprintf(&jobs[c%workers], "%s %d %d %d %d %d %d 0\n", cw.tag("k"), r.next(), ci, b2u(cs.prevote), cs.li, b2u(cs.transfer), cs.vterm)
+	}
+	// sessions with a failing stable store (component 1401): the server is not the first of its configuration, so electSelf has
+	// asked somebody before its own persistVote fails and returns a nil vote channel: the answers that follow must be ignored
+	fcnt := cnt / 2
+	for c := 0; c < fcnt; c++ {
+		ci := 5 + r.intn(3)
+		pv := r.chance(1, 2)
+		tf := r.chance(1, 5)
+		vt := uint64(0)
+		if r.chance(1, 3) {
+			vt = 3
+		}
+		fmt.Fprintf(&jobs[c%workers], "%s %d %d %d %d %d %d 1\n", cw.tag("kf"), r.next(), ci, b2u(pv), 1+r.intn(3), b2u(tf), vt)
 	}
 	_ = cfgs
 	// the sessions run in child processes, one at a time each: "settled" = every goroutine blocked (evQuiet)
@@ -469,7 +540,11 @@ func runC14cand(cw *caseWriter, tier string, r *rng) {
 				tag := strings.TrimSpace(parts[0])
 				in := c14ints(parts[1])
 				obs := c14ints(parts[2])
-				cw.emit(tag, 14, in, obs, len(in) > 20)
+				comp := 14
+				if strings.HasPrefix(tag, "kf") {
+					comp = 1401
+				}
+				cw.emit(tag, comp, in, obs, len(in) > 20)
 				for _, m := range strings.Split(parts[3], "\x1f") {
 					c14emitMon(cw, tag, m)
 				}
@@ -478,6 +553,7 @@ func runC14cand(cw *caseWriter, tier string, r *rng) {
 	}
 	wg.Wait()
 	cw.stat("c14_candidate_sessions", cnt)
+	cw.stat("c14_candidate_sessions_failing_store", fcnt)
 }
 
 // replay of a recorded session
@@ -487,8 +563,12 @@ func c14replay(cw *caseWriter, tag string, in []uint64) {
 	cs.cfg, p = decSrvs(in, 3)
 	cs.term, cs.vterm, cs.vcand, cs.li, cs.lt = in[p], in[p+1], in[p+2], in[p+3], in[p+4]
 	scripted := append([]uint64{}, in[p+5:]...)
+	comp := 14
+	if strings.HasPrefix(tag, "kf") {
+		cs.failMode, comp = true, 1401
+	}
 	_, obs, mons := c14run(cs, &rng{s: 1}, 0, scripted)
-	cw.emit(tag, 14, in, obs, true)
+	cw.emit(tag, comp, in, obs, true)
 	for _, m := range mons {
 		c14emitMon(cw, tag, m)
 	}
@@ -539,13 +619,16 @@ func c14Batch() {
 		{{0, 1, 1}, {0, 2, 2}, {0, 3, 3}, {1, 4, 4}},
 		{{0, 1, 1}},
 		{{1, 1, 1}, {0, 2, 2}, {0, 3, 3}},
+		{{0, 2, 2}, {0, 1, 1}, {0, 3, 3}},                       // 5: the server is listed second
+		{{0, 2, 2}, {0, 3, 3}, {0, 1, 1}},                       // 6: ... last
+		{{0, 2, 2}, {0, 3, 3}, {0, 1, 1}, {0, 4, 4}, {0, 5, 5}}, // 7: ... third of five
 	}
 	sc := bufio.NewScanner(os.Stdin)
 	w := bufio.NewWriter(os.Stdout)
 	defer w.Flush()
 	for sc.Scan() {
 		f := strings.Fields(sc.Text())
-		if len(f) != 7 {
+		if len(f) != 8 {
 			continue
 		}
 		v := c14ints(strings.Join(f[1:], " "))
@@ -553,6 +636,7 @@ func c14Batch() {
 		if v[5] != 0 {
 			cs.vterm, cs.vcand = 3, 3
 		}
+		cs.failMode = v[6] != 0
 		rr := &rng{s: v[0]}
 		evs, obs, mons := c14run(cs, rr, 3+rr.intn(8), nil)
 		in := append(cs.header(), evs...)
